@@ -264,7 +264,15 @@ class C28Trigger(Base):
             return
         flow = list(args.get('flow') or [])
         # a member named again by a later trigger belongs to that trigger
+        same_iter = set()
         for tid in group:
+            prev = self.owner.get(tid)
+            if prev is not None and prev['it'] == self.drv.bus.it and \
+                    not prev['preps'][tid]:
+                # two triggers executed in one iteration name it: the run
+                # the first one asked for has not happened yet and will be
+                # seen under this record too
+                same_iter.add(tid)
             self.drop(tid, 're-triggered')
         schd = self.drv.schd
         rec = {
@@ -276,6 +284,7 @@ class C28Trigger(Base):
             'checked_offgroup': False, 'late_start': set(),
             'prep_flows': {}, 'fed_by_old_job': set(), 'live_flows': {},
             'msg_facts': set(), 'flow_spawned': set(), 'explicit': set(),
+            'same_iter': same_iter,
             'ran_before': {t: set(self.ran.get(t, ())) for t in group},
         }
         self.cur_rec = rec
@@ -328,7 +337,9 @@ class C28Trigger(Base):
             retry = True
         else:
             retry = False
-        if rec['preps'][tid] > 1 and not retry:
+        if tid in rec['same_iter'] and rec['preps'][tid] == 2:
+            self.n['second_run_owed_to_a_trigger_of_the_same_iteration'] += 1
+        elif rec['preps'][tid] > 1 and not retry:
             self.v('member-ran-twice',
                    f'{tid} entered job preparation {rec["preps"][tid]} times '
                    f'after one trigger of {sorted(rec["group"])} '
@@ -342,7 +353,9 @@ class C28Trigger(Base):
                    f'({rec["before"][tid]["status"]}) when the group '
                    f'{sorted(rec["group"])} was triggered, yet it was '
                    'prepared again', {'task': t, 'trigger_it': rec['it']})
-        if tid not in rec['start'] and rec['flow'] != ['none']:
+        if tid in rec['same_iter'] and rec['preps'][tid] == 1:
+            pass    # (the run owed to the earlier trigger of the iteration)
+        elif tid not in rec['start'] and rec['flow'] != ['none']:
             self.n['order_checks'] += 1
             ok = all(eval_in_group(ar, p, rec['facts'], rec['group'],
                                    self.gt)
